@@ -541,7 +541,23 @@ where
         last_fail: None,
     });
 
+    let shrink_secs: u64 = std::env::var("MV_SHRINK_SECS").ok().and_then(|v| v.parse().ok()).unwrap_or(90);
+    let shrink_deadline: RefCell<Option<std::time::Instant>> = RefCell::new(None);
     let result = runner.run(&strategy, |case| {
+        // Shrinking is bounded in time as well as in steps (a failure that takes seconds per evaluation, e.g. a stack
+        // overflow in a worker process, would otherwise shrink for hours). This bounds minimality, never a verdict: past
+        // the deadline every further simplification counts as "does not fail", so the best case so far is reported.
+        {
+            let st_ref = st.borrow();
+            if !st_ref.counting {
+                let mut d = shrink_deadline.borrow_mut();
+                match *d {
+                    None => *d = Some(std::time::Instant::now() + std::time::Duration::from_secs(shrink_secs)),
+                    Some(t) if std::time::Instant::now() > t => return Ok(()),
+                    _ => {}
+                }
+            }
+        }
         let mut log = CaseLog::default();
         // Panics of the code under test are caught and classified inside the properties; a panic that arrives here is the
         // harness's own (an unwrap on a spawn under load, a slicing mistake): a health problem (exit 2), never a violation.
